@@ -534,7 +534,7 @@ CHECK = Check(
         "known finding F12c: the alias redirect canonicalises through build(), which may select a rule of the endpoint with extra default-only arguments (no equal-arguments guard, unlike get_default_redirect); witness alias_redirect_adds_default_arguments",
         "defaults siblings are generated with equal argument sets (redirect expected), with one or two extra default-only arguments and with fewer arguments than the variable rule (no redirect expected: provides_defaults_for demands equal sets); the oracle compares the end of the chain with what the path denotes when redirect_defaults is off",
         "known finding F12b: a rule that keeps an empty segment after werkzeug's pairwise slash merging ('/a///' -> '/a//') next to a variable rule yields two consecutive slash redirects (negation witness slash_redirect_converges_full_false)",
-        "slash_redirect_converges is proved in two partial forms: the target is directly admitted by the rule that asked for the slash and re-matching it is not None (slash_redirect_converges_partial); on maps none of whose rules keeps an empty segment in the middle the re-match is a found rule, never a second slash redirect (slash_redirect_converges_partial2; F12b shows the hypothesis is needed). That the found rule has the endpoint / values 'the original would have' rests on C03.match_sound / match_priority. defaults_redirect_converges is proved in a partial form (defaults_redirect_converges_partial: the target is the canonical rule's own URL for the same endpoint and Python-equal arguments; given that this rule's URLs match back - C04.match_build_partial on non-overlapping maps - the re-match denotes the same endpoint and arguments); that no second defaults redirect follows, and the alias redirect, are covered by the stream only",
+        "slash_redirect_converges is proved in two partial forms: the target is directly admitted by the rule that asked for the slash and re-matching it is not None (slash_redirect_converges_partial); on maps none of whose rules keeps an empty segment in the middle the re-match is a found rule, never a second slash redirect (slash_redirect_converges_partial2; F12b shows the hypothesis is needed). That the found rule has the endpoint / values 'the original would have' rests on C03.match_sound / match_priority. defaults_redirect_converges is proved in a partial form (defaults_redirect_converges_partial: the target is the canonical rule's own URL for the same endpoint and Python-equal arguments; given that this rule's URLs match back - C04.match_build_partial on non-overlapping maps - the re-match denotes the same endpoint and arguments); no second defaults redirect follows (defaults_redirect_no_second_partial: the first qualifying rule was taken, Python == on the model's values is transitive); the alias redirect goes to a non-alias rule of the endpoint when one is suitable and then matches without another alias redirect (alias_redirect_converges_partial), both hypotheses shown necessary (alias_without_canonical_loops, alias_redirect_same_arguments_false = F12c); discharging 'the canonical rule's URLs match back' inside C12 is left to C04.match_build_partial",
     ],
     trusted_extra=["CPython urllib.parse (quote, urlencode, urlunsplit, urlsplit, unquote) for the modelled primitives (validated by the stream, not verified)"],
     quick_budget=3500,
@@ -543,7 +543,7 @@ CHECK = Check(
 
 MANIFEST = {
     "level_text": "Machine-checked Lean 4 theorems about the model of MapAdapter.match's redirects: every router redirect (slash, merged slashes, defaults, alias) is, character for character, bound scheme + '://' + get_host(None or the canonical rule's own subdomain) + script root + a path not starting with '/' + exactly the request's query (redirect_on_bound_host, slash_redirect_on_bound_host incl. the character set quote can emit, by decide over all 256 bytes); the target of a slash redirect is directly admitted by the rule that asked for it and the target of a merged-slashes redirect re-matches to the same rule without another redirect. The model is tied to the code by a differential stream that follows redirects to a fixpoint; the property oracle runs on the real code.",
-    "level_note": "Trusted: Lean kernel; extract.py; harness; CPython urllib.parse (modelled, stream-validated). Partial: the full-strength exclusion of a second consecutive slash redirect is false (F12b, negation witness proved) and is proved under the no-empty-middle-segment hypothesis; defaults_redirect_converges is proved in a partial form (same endpoint / arguments after the re-match, given C04.match_build_partial for the canonical rule); absence of a second defaults redirect and the alias redirect are stream-covered only. BoundOK excludes host_matching. Known findings F12a, F12b, F12c.",
+    "level_note": "Trusted: Lean kernel; extract.py; harness; CPython urllib.parse (modelled, stream-validated). Partial: the full-strength exclusion of a second consecutive slash redirect is false (F12b, negation witness proved) and is proved under the no-empty-middle-segment hypothesis; defaults_redirect_converges is proved in a partial form (same endpoint / arguments after the re-match, given C04.match_build_partial for the canonical rule); absence of a second defaults redirect and alias convergence are proved under explicit hypotheses (necessity witnessed). BoundOK excludes host_matching. Known findings F12a, F12b, F12c.",
     "technique": "Lean 4 proof (list reasoning over the URL assembly, decide +kernel over all bytes for quote, reuse of the C03 matcher lemmas) + model/code correspondence",
     "design_ref": "DESIGN.md section 4, C12",
 }
